@@ -264,7 +264,19 @@ func ruleTableBeforeWalRemove(r *Report) {
 	}
 	o := &order{r, r.P}
 	A := CallsIn(fn, Suffix("MemStoreI.FlushWithTombstones", "MemStore.FlushWithTombstones", "MemStoreI.Flush", "MemStore.Flush"))
-	B := removalSites(r.P, fn)
+	// removals of the WAL file: removal sites whose argument is the flush action's walPath
+	var B []Site
+	for _, s := range removalSites(r.P, fn) {
+		for _, a := range argsOf(s.Call()) {
+			if f, ok := a.(*ssa.Field); ok {
+				if st, _ := f.X.Type().Underlying().(*types.Struct); st != nil && st.Field(f.Field).Name() == "walPath" {
+					B = append(B, s)
+				}
+			} else if _, fld, _, ok := loadOfField(a); ok && fld == "walPath" {
+				B = append(B, s)
+			}
+		}
+	}
 	o.OnlyAfterSuccess(rule, rule+"/simpledb.executeFlush/os.Remove", fn, "the table flush", A, "removing the WAL file", B, nil)
 }
 
@@ -700,6 +712,8 @@ func rulePartialTable(r *Report) {
 		}
 		if guarded {
 			r.OK(rule, key, s.Pos(), "guarded by a completeness test")
+		} else if why := atomicTablePublish(r.P); why != "" {
+			r.OK(rule, key, s.Pos(), "tables become visible to recovery only by a rename of a completed directory: "+why)
 		} else {
 			r.Bad(rule, key, s.Pos(), "a table directory without complete files (kill between MkdirAll and the writer's Close) makes Open fail: no completeness test precedes NewSSTableReader and its error is returned")
 		}
@@ -962,8 +976,11 @@ func ruleIdempotent(r *Report) {
 						ok = true
 					}
 				}
+				if !ok && tableNamePath(tgt) && freshGenerationName(tgt) {
+					ok = true
+				}
 				if ok {
-					r.OK(rule, key, s.Pos(), "rename target cleared first")
+					r.OK(rule, key, s.Pos(), "rename target cleared first (or a name built from a fresh generation number)")
 				} else {
 					r.Bad(rule, key, s.Pos(), "os.Rename during recovery onto a target that was not cleared with RemoveAll first: a repeated attempt fails")
 				}
@@ -1292,7 +1309,7 @@ func removalSites(p *Prog, fn *ssa.Function) []Site {
 			out = append(out, s)
 			return
 		}
-		if sc := c.Call.StaticCallee(); sc != nil && inModule(sc) && removesFiles(p, sc, 0) && strings.HasPrefix(FuncKey(sc), "simpledb.remove") {
+		if sc := c.Call.StaticCallee(); sc != nil && inModule(sc) && fnPkg(sc) == fnPkg(fn) && removesFiles(p, sc, 0) {
 			out = append(out, s)
 		}
 	})
@@ -1395,4 +1412,124 @@ func ruleWalReclaim(r *Report) {
 	} else {
 		r.Bad(rule, key, fn.Pos(), "the WAL rotates on its own when a file reaches its size limit (the path is dropped in checkSizeAndRotate) but the flush removes only the one path its own rotation returned: an auto-rotated file survives the flush of its memstore and is replayed over newer tables at the next Open — overwritten values come back, deleted keys reappear (input: more than limit bytes logged while the memstore estimate does not grow, e.g. same-size overwrites of one key)")
 	}
+}
+
+// tableNamePath: v is filepath.Join(base, fmt.Sprintf(<table name pattern>, …)) — a directory recovery would load.
+func tableNamePath(v ssa.Value) bool {
+	c, ok := v.(*ssa.Call)
+	if !ok {
+		return false
+	}
+	// a module helper all of whose returns build a table name
+	if sc := c.Call.StaticCallee(); sc != nil && inModule(sc) && sc.Blocks != nil {
+		rets := returnsOf(sc)
+		all := len(rets) > 0
+		for _, rs := range rets {
+			res := rs.Instr.(*ssa.Return).Results
+			if len(res) != 1 || !tableNamePath(res[0]) {
+				all = false
+			}
+		}
+		return all
+	}
+	if CalleeKey(c) != "path/filepath.Join" {
+		return false
+	}
+	vals := varargValues(c)
+	if len(vals) == 0 {
+		return false
+	}
+	last := vals[len(vals)-1]
+	sp, ok := last.(*ssa.Call)
+	if !ok || CalleeKey(sp) != "fmt.Sprintf" {
+		return false
+	}
+	f, ok := stringConst(sp.Call.Args[0])
+	return ok && strings.HasPrefix(f, "sstable")
+}
+
+// atomicTablePublish: in executeFlush the table is written into a directory whose name recovery does not load, and
+// only a successful flush is followed by a rename onto the table name; recovery removes leftovers of that prefix.
+// Returns a description, or "" when the shape is not present.
+func atomicTablePublish(p *Prog) string {
+	fn := p.Func("simpledb.executeFlush")
+	if fn == nil {
+		return ""
+	}
+	// the directory the writer is pointed at
+	var writeBase ssa.Value
+	for _, s := range CallsIn(fn, Keys("sstables.WriteBasePath")) {
+		writeBase = s.Call().Common().Args[0]
+	}
+	if writeBase == nil || tableNamePath(writeBase) {
+		return ""
+	}
+	// a rename of that directory onto a table name, only after the flush succeeded
+	F := CallsIn(fn, Suffix("MemStoreI.FlushWithTombstones", "MemStoreI.Flush"))
+	var ren []Site
+	for _, s := range CallsIn(fn, Keys("os.Rename")) {
+		a := s.Call().Common().Args
+		if a[0] == writeBase && tableNamePath(a[1]) {
+			ren = append(ren, s)
+		}
+	}
+	if len(ren) == 0 || len(F) == 0 {
+		return ""
+	}
+	removed := map[Edge]bool{}
+	for _, f := range F {
+		succ, _ := errorEdges(f)
+		for _, e := range succ {
+			removed[e] = true
+		}
+	}
+	for _, rn := range ren {
+		if siteReachable(rn, removed) {
+			return ""
+		}
+	}
+	// nobody creates a table-named directory in place
+	for _, f := range p.FuncsOfPkg("simpledb") {
+		for _, s := range CallsIn(f, Keys("os.MkdirAll", "os.Mkdir")) {
+			if tableNamePath(s.Call().Common().Args[0]) {
+				return ""
+			}
+		}
+	}
+	// recovery removes leftovers: a RemoveAll in reconstructSSTables / repairCompactions
+	rec := p.Func("simpledb.DB.reconstructSSTables")
+	if rec == nil || len(CallsIn(rec, Keys("os.RemoveAll"))) == 0 {
+		return ""
+	}
+	return "executeFlush writes into a non-table directory and renames it after the flush succeeded; reconstructSSTables removes leftovers"
+}
+
+// freshGenerationName: the table name is formatted from a fresh increment of the generation counter (never existed).
+func freshGenerationName(v ssa.Value) bool {
+	c, ok := v.(*ssa.Call)
+	if !ok {
+		return false
+	}
+	if sc := c.Call.StaticCallee(); sc != nil && inModule(sc) {
+		for _, a := range c.Call.Args {
+			if isGenIncrement(stripIface(a)) {
+				return true
+			}
+		}
+		return false
+	}
+	vals := varargValues(c)
+	if len(vals) == 0 {
+		return false
+	}
+	sp, ok := vals[len(vals)-1].(*ssa.Call)
+	if !ok {
+		return false
+	}
+	for _, g := range varargValues(sp) {
+		if isGenIncrement(stripIface(g)) {
+			return true
+		}
+	}
+	return false
 }
